@@ -97,7 +97,7 @@ def run_case(ctx, case):
         for step in range(n_steps):
             r = R.random()
             if pending_uncommitted:
-                kind = R.choice(["manual-commit", "manual-commit", "update"])
+                kind = R.choice(["manual-commit", "manual-commit", "update", "no-commit"])
             elif r < 0.5:
                 kind = "update"
             elif r < 0.6:
@@ -191,6 +191,14 @@ def run_case(ctx, case):
                     ctx.violation("other:failed_update_had_effects", f"{args}: exit {res.exit_code}, changed "
                                   f"{harness.diff_snapshots(before, after)}, commits {n_before}->{n_after}, tags "
                                   f"{sorted(set(tags_after) - set(all_tags))}", case=case, observed=desc)
+                    return
+                if kind == "no-commit" and exp is not None and res.crash is None and \
+                        not updates.week53_involved(vp, start_state, updates.new_state_from_text(vp, exp, tdy)):
+                    # a non-committing update never looks at the working tree state: the version state left by
+                    # the previous step must be an acceptable input for this one
+                    ctx.violation("other:non_committing_update_refused", f"{args}: exit {res.exit_code} "
+                                  f"{res.errors()[-3:]} (pending uncommitted bump: {pending_uncommitted})", case=case,
+                                  observed=desc)
                     return
                 if pending_uncommitted:
                     ctx.count("update_refused_on_dirty_tree")
